@@ -22,7 +22,7 @@ MANIFEST = {
             "them), node-list formatting of Builder/Compiler (format_node), format_feature/type_id/data. AArch64 operand and named-label "
             "parse-back are monitored on every run, not proved for all inputs. The encoder's bytes are inputs here (C01/C02).",
 }
-MODS = ["AsmjitVerif.Props.C20", "AsmjitVerif.Props.C20Names", "AsmjitVerif.Props.C20Mem", "AsmjitVerif.Props.C20Read", "AsmjitVerif.Props.C20Line", "AsmjitVerif.Props.C20A64Line", "AsmjitVerif.Props.C20Node"]
+MODS = ["AsmjitVerif.Props.C20", "AsmjitVerif.Props.C20Names", "AsmjitVerif.Props.C20Mem", "AsmjitVerif.Props.C20Read", "AsmjitVerif.Props.C20Line", "AsmjitVerif.Props.C20A64Line", "AsmjitVerif.Props.C20Node", "AsmjitVerif.Props.C20Column"]
 
 M64 = (1 << 64) - 1
 FF = {"mc": 0x1, "alias": 0x8, "explain": 0x10, "heximm": 0x20, "hexoff": 0x40, "casts": 0x100, "pos": 0x200, "regtype": 0x400}
@@ -517,6 +517,20 @@ class Gen:
                 self.add("emit %d 0 - - m.2.0.0.L%d.-.0.0.0.0 i.4660" % (hdr["mov"], l), True)
                 self.add("emit %d 0 - - l.%d" % (hdr["jmp"], l), True)
                 self.add("emit %d 0 - - r.%d.0 m.0.0.0.L%d.-.0.0.0.0" % (hdr["lea"], w, l), True)
+            # instructions whose memory operand is implicit but may be spelled (segment override / 32-bit base = 67h prefix)
+            for mn_, regs_ in (("monitor", ["r.5.1", "r.5.2"]), ("monitorx", ["r.5.1", "r.5.2"]), ("maskmovq", None), ("maskmovdqu", None), ("vmaskmovdqu", None)):
+                if mn_ not in hdr:
+                    continue
+                for bt, bi in ((w, 0), (w, 7), (5, 0), (5, 7)):
+                    for seg in (0, 5, 2):
+                        m_ = "m.0.%d.0.%d/%d.-.0.0.0.0" % (seg, bt, bi)
+                        if regs_ is not None:
+                            self.add("emit %d 0 - - %s" % (hdr[mn_], m_), True)
+                            self.add("emit %d 0 - - %s %s" % (hdr[mn_], m_, " ".join(regs_)), True)
+                        else:
+                            rt = 28 if mn_ == "maskmovq" else 11
+                            self.add("emit %d 0 - - r.%d.1 r.%d.2 %s" % (hdr[mn_], rt, rt, m_), True)
+                            self.add("emit %d 0 - - %s r.%d.1 r.%d.2" % (hdr[mn_], m_, rt, rt), True)
             if x64:
                 for v in big:
                     sv = v if v < (1 << 63) else v - (1 << 64)
@@ -538,6 +552,8 @@ class Gen:
             for l in range(self.nlabels):
                 self.add("node label %d" % l, True)
         for k in range(n):
+            if rng.random() < 0.3:
+                self.add("pos %d" % rng.choice((1, 7, 42, 99999, 100000, 1234567, 4294967295)))
             r = rng.random()
             if r < 0.6:
                 iid = rng.randrange(1, count)
@@ -559,8 +575,12 @@ class Gen:
                 self.add("node align %d %d" % (rng.choice((0, 1, 2)), rng.choice((1, 2, 4, 8, 16, 32, 64, 4096))), True)
             elif r < 0.86:
                 self.add("node embed %d %d %d" % (rng.choice((1, 2, 4, 8)), rng.randrange(0, 40), rng.randrange(1, 9)), True)
-            else:
+            elif r < 0.93:
                 self.add("node comment %s" % rng.choice(("hello world", "x", "a; b", "pad  ded")).encode().hex(), True)
+            elif r < 0.97:
+                self.add("node elabel %d" % rng.randrange(self.nlabels), True)
+            else:
+                self.add("node edelta %d %d" % (rng.randrange(self.nlabels), rng.randrange(self.nlabels)), True)
         self.add("nodelist")
 
     def misc_block(self, n):
@@ -647,16 +667,16 @@ def gen_ops(rng, tier):
             g.add(l)
         g.nlabels = 10
         first = True
-        for f in (0x0, 0x60, 0x8, 0x68):
+        for f in (0x0, 0x260, 0x208, 0x68):
             g.set_flags(f)
-            if f == 0x60:
+            if f == 0x260:
                 g.add("logopts 0 30 0")
             g.node_block(names, 150 if quick else 3000, first)
             first = False
     return g
 
 
-STATE_OPS = ("init", "flags", "logopts", "lab", "vreg", "bind")
+STATE_OPS = ("init", "flags", "logopts", "lab", "vreg", "bind", "pos")
 ANNOT = re.compile(r"(?<=[0-9A-F])\{[^}]*\}")
 
 
@@ -716,7 +736,7 @@ def state_prefix(ops, i):
     return [o for o in ops[start:i] if o.split()[0] in STATE_OPS]
 
 
-def monitor_line(op, ans):
+def monitor_line(op, ans, pos=0):
     w = op.split()
     if w[0] == "reg" and ans.startswith("="):
         return "mon_reg %s %s %s" % (w[1], w[2], ans)
@@ -725,7 +745,7 @@ def monitor_line(op, ans):
     if w[0] == "inst" and ans.startswith("="):
         return "mon_inst %s %s" % (" ".join(w[1:]), ans)
     if w[0] == "node" and ans.startswith("="):
-        return "mon_node %s %s" % (" ".join(w[1:]), ans)
+        return "mon_node %d %s %s" % (pos or 0, " ".join(w[1:]), ans)
     if w[0] == "emit" and ans.startswith("T "):
         text, hexb = split_emit_answer(ans)
         return "mon_emit %s %s %s %s %s %s =%s" % (w[1], w[2], w[3], w[4], hexb or "-", " ".join(w[5:]), text)
@@ -889,11 +909,18 @@ def run(res):
             diffs.append(i)
     # monitor: the reader judges the implementation's text of every well-formed query
     mon_ops, idx = [], []
+    pending_pos = 0
     for i, (o, r) in enumerate(zip(ops, impl)):
+        if o.startswith("pos "):
+            pending_pos = int(o.split()[1])
         if o.split()[0] in STATE_OPS:
             mon_ops.append(o); idx.append(None)
-        elif wf[i]:
-            ml = monitor_line(o, r)
+            continue
+        this_pos = pending_pos if o.startswith("node ") else 0
+        if o.startswith("node "):
+            pending_pos = 0
+        if wf[i]:
+            ml = monitor_line(o, r, this_pos)
             if ml:
                 mon_ops.append(ml); idx.append(i)
     mon, rc3, err3 = vlib.run_model("C20", mon_ops)
@@ -926,6 +953,10 @@ def run(res):
     res.coverage["input_distribution"] = kinds
     res.coverage["monitored_answers"] = judged
     res.coverage["emit_accepted_by_assembler"] = accepted
+    implicit_mem = sum(1 for o, r in zip(ops, impl) if o.startswith("emit ") and r.startswith("T ") and
+                       r.split(";")[0].split()[1:2] and r.split(";")[0].split()[1].split(".")[0] in ("monitor", "monitorx", "maskmovq", "maskmovdqu", "vmaskmovdqu")
+                       and "[" in r.split(";")[0])
+    res.coverage["implicit_memory_operand_lines_emitted_and_judged"] = implicit_mem
     tgt = {"label_mem_plus_imm_with_dots": 0, "abs_ge_2G_texts": 0, "moffs64_emitted": 0, "local_label_under_unnamed_parent_texts": 0}
     for b_, e_ in g.targets:
         for i in range(b_, e_):
